@@ -607,8 +607,74 @@ fn flip(op: &str) -> String {
 const INT_TOKS: [&str; 8] = ["0", "1", "-1", "2", "9007199254740992", "9007199254740993", "9223372036854775807", "-9223372036854775808"];
 const REAL_TOKS: [&str; 14] = ["-0.5", "-1.5", "0.0", "-0.0", "1.0", "1.5", "-1.0", "0.5", "9007199254740992.0", "9223372036854775808.0", "-9223372036854775808.0", "inf", "-inf", "NaN"];
 
+/// Layer TS: instants extracted from lines (micro- and millisecond fractions), all sequences of <= 3 lines from 7
+/// different instants of which several fall into one millisecond / one second: DISTINCT rows, GROUP BY groups,
+/// COUNT(DISTINCT), MIN < MAX and WHERE ts = ts' all follow the same equality (two different tokens = two different instants)
+fn layer_ts(col: &Collector) {
+    let def_us = "CREATE TABLE t(line = '([0-9]+)-([0-9]+)-([0-9]+) ([0-9]+):([0-9]+):([0-9]+)[.]([0-9]+) ([a-z]+)', line[1], line[2], line[3], line[4], line[5], line[6], line[7] => ts TIMESTAMP MICROSECONDS, line[8] => k TEXT);";
+    let def_ms = def_us.replace(" MICROSECONDS", "");
+    let mut n = 0u64;
+    for (def, toks) in [
+        (def_us.to_string(), ["05.000000", "05.000001", "05.000999", "05.001000", "05.001001", "05.999999", "06.000000"]),
+        (def_ms, ["05.000", "05.001", "05.009", "05.010", "05.999", "06.000", "06.001"]),
+    ] {
+        let tables = sut::make_tables(&def).expect("TS def");
+        let k = toks.len() as u64;
+        for idx in 0..seq_count(k, 3) {
+            let seq = seq_decode(idx, k, 3);
+            if seq.is_empty() {
+                continue;
+            }
+            let lines: Vec<String> = seq.iter().map(|i| format!("2024-01-02 03:04:{} a", toks[*i as usize])).collect();
+            let lrefs: Vec<&str> = lines.iter().map(|s| s.as_str()).collect();
+            let distinct = seq.iter().collect::<std::collections::BTreeSet<_>>().len() as i64;
+            let rows_of = |q: &str| -> Result<Vec<Vec<RVal>>, String> {
+                match sut::run_batch(&tables, &sut::parse(q).unwrap(), &lrefs) {
+                    Outcome::Ok(t) => Ok(t.rows),
+                    Outcome::Err(e) => Err(e),
+                    Outcome::Panic(p) => Err(format!("panic: {}", p.msg)),
+                }
+            };
+            let mut got: Vec<(String, String)> = Vec::new();
+            got.push(("DISTINCT rows".into(), format!("{:?}", rows_of("SELECT DISTINCT ts FROM t").map(|r| r.len() as i64))));
+            got.push(("GROUP BY groups".into(), format!("{:?}", rows_of("SELECT ts, COUNT(*) FROM t GROUP BY ts").map(|r| r.len() as i64))));
+            got.push(("COUNT(DISTINCT)".into(), format!("{:?}", rows_of("SELECT COUNT(DISTINCT ts) FROM t").map(|r| match r.get(0).and_then(|x| x.get(0)) { Some(RVal::Int(i)) => *i, _ => -1 }))));
+            got.push(("k, COUNT(DISTINCT) per group".into(), format!("{:?}", rows_of("SELECT k, COUNT(DISTINCT ts) FROM t GROUP BY k").map(|r| match r.get(0).and_then(|x| x.get(1)) { Some(RVal::Int(i)) => *i, _ => -1 }))));
+            got.push(("array_length(array_unique(ARRAY_AGG))".into(), format!("{:?}", rows_of("SELECT array_length(array_unique(ARRAY_AGG(ts))) FROM t").map(|r| match r.get(0).and_then(|x| x.get(0)) { Some(RVal::Int(i)) => *i, _ => -1 }))));
+            n += 1;
+            col.eval(got.len() as u64);
+            if distinct < seq.len() as i64 || distinct >= 2 {
+                col.nontrivial(h64(&("TS", &def.len(), &seq)));
+            }
+            let want = format!("{:?}", Ok::<i64, String>(distinct));
+            for (name, g) in &got {
+                if *g != want {
+                    col.fail(fail(
+                        format!("consumer:instants:{}", name),
+                        format!("{} over the instants {:?} gave {}, expected {} (different tokens are different instants)", name, lines, g, distinct),
+                        json!({"layer": "TS", "definition": def, "lines": lines, "consumer": name}),
+                        json!(distinct),
+                        json!(g),
+                        seq.len() as u64,
+                    ));
+                }
+            }
+            // MIN < MAX exactly when there are two different instants
+            if let Ok(r) = rows_of("SELECT COUNT(*) FROM t WHERE 1 = 1 HAVING MIN(ts) < MAX(ts)") {
+                let lt = !r.is_empty();
+                col.eval(1);
+                if lt != (distinct >= 2) {
+                    col.fail(fail("consumer:instants:min-max".into(), format!("HAVING MIN(ts) < MAX(ts) over {:?} is {}, but there are {} different instants", lines, lt, distinct), json!({"layer": "TS", "definition": def, "lines": lines, "consumer": "min-max"}), json!(distinct >= 2), json!(lt), seq.len() as u64));
+                }
+            }
+        }
+    }
+    col.layer("TS-instants from lines (micro / millisecond fractions): every deduplicating consumer", n, true, json!({"instants_per_table": 7, "max_len": 3}));
+}
+
 pub fn run(ctx: &Ctx) -> i32 {
     let col = Collector::new();
+    layer_ts(&col);
     let d = domain();
     let n = d.len();
     // Layer A pairs
@@ -726,6 +792,12 @@ pub fn run(ctx: &Ctx) -> i32 {
 pub fn replay(case: &J) -> Vec<Failure> {
     match case["layer"].as_str() {
         Some("A") => layer_a_case(case["i"].as_u64().unwrap() as usize, case["j"].as_u64().unwrap() as usize, case["k"].as_u64().map(|k| k as usize)),
+        Some("TS") => {
+            let c = Collector::new();
+            layer_ts(&c);
+            let all: Vec<Failure> = c.failures.lock().unwrap().values().flatten().cloned().collect();
+            all.into_iter().filter(|f| f.case["consumer"] == case["consumer"]).collect()
+        }
         Some("D") => layer_d_case(case["x"].as_u64().unwrap() as usize, case["y"].as_u64().unwrap() as usize, case["line"].as_str().unwrap()),
         Some("B") => {
             let seq: Vec<u8> = case["seq"].as_array().unwrap().iter().map(|x| x.as_u64().unwrap() as u8).collect();
